@@ -16,6 +16,7 @@ import Flowjaxv.Driver.TraceDrv
 import Flowjaxv.Driver.Losses
 import Flowjaxv.Driver.NetInverse
 import Flowjaxv.Driver.Planar
+import Flowjaxv.Driver.Flows
 /-!
 Model driver: `lake env lean --run Driver.lean < ops.txt`.  One op per line in, one line out
 (`ERR <msg>` when the model rejects the op).
@@ -92,6 +93,7 @@ def dispatch (line : String) : String :=
       | "addcond" => addcond args
       | "planar" => planar args
       | "triaff" => triaff args
+      | "flow" => flow args
       | _ => .error s!"unknown op {op}"
     match r with
     | .ok s => s
